@@ -71,3 +71,7 @@ void job_close(int j) { V_ASSERT(g_needs_close && j == g_close_j, "C18: only a c
 void spawndied(int c) {}
 void del_status(void) {}
 #endif
+#ifdef P_ADDBOUNCE_U
+extern int g_stage;
+char *stripvdomprepend(char *recip) { return recip; }   /* proof send_stripvdom; here: no prefix */
+#endif
